@@ -14,7 +14,7 @@ own pristine process.  Three checks per case:
     operations (ids, memoised counters, (context,index) of every unique id, date-parse results,
     version mode) AND the visible part of the process state after the run (context counter,
     cache_info of the two date caches, whether the RowHistory context variable was replaced, the
-    application's options dict);
+    application's options dict, which must come back unchanged);
   * state-diff audit: all snowfakery.* module objects are fingerprinted before and after each run;
     a changed location that is neither in the model's `proc` record nor in the whitelist (import
     caches, warnings registries) is "unmodelled process state" = a disagreement with the model.
@@ -78,8 +78,6 @@ ASSUMPTIONS = ["dateutil / the isinstance branches behind parse_date and parse_d
                "C19_uid_values_distinct relies on C13's value pipeline (UniqueId.v)"]
 EXHAUSTIVE = {"quick": False, "thorough": False}
 
-F_CLOCK = "C19-clock-cached"
-F_OPTS = "C19-plugin-options-mutated"
 F_ALPHA = "C19-K5-alpha-codes-repeat-across-runs"
 
 CSV_TEXT = "a,b\n1,x\n2,y\n3,z\n4,w\n5,v\n"
@@ -261,7 +259,7 @@ class Walker:
 MODELLED = [
     (re.compile(r"^snowfakery\.standard_plugins\.UniqueId:UniqueNumericIdGenerator\.context_uniqifier$"), "p_uid"),
     (re.compile(r"^snowfakery\.template_funcs:parse_date(\.<lru_cache>)?$"), "p_dates"),
-    (re.compile(r"^snowfakery\.template_funcs:parse_datetimespec(\.<lru_cache>)?$"), "p_dts"),
+    (re.compile(r"^snowfakery\.template_funcs:_parse_datetimespec(\.<lru_cache>)?$"), "p_dts"),
     (re.compile(r"^snowfakery\.utils\.scrambled_numbers:(mask_for_key|randomizer)(\.<lru_cache>)?$"), "p_masks"),
     (re.compile(r"^snowfakery\.[A-Za-z_.]+:RowHistoryCV$"), "p_rowhist"),
 ]
@@ -657,6 +655,8 @@ def gen_seq(rng, pool_yaml, idx=0, tier="quick"):
         if i != j:
             recipes[j] = json.loads(json.dumps(recipes[i]))
     shared = rng.random() < 0.12 and all(r["k"] in ("prog", "sfcore") for r in recipes)
+    if shared and rng.random() < 0.3:
+        shared = 3
     spawn_share = 0.25 if tier == "quick" else 0.03
     return {"kind": "seq", "recipes": recipes, "api": rng.choice(["generate", "generate_data"]),
             "fresh": "spawn" if rng.random() < spawn_share else "fork", "shared_opts": shared,
@@ -708,10 +708,11 @@ def _directed(rng, pool_yaml):
     out.append(seq([fail_mid, plain]))                                      # first fails
     out.append(seq([plain, fail_mid, plain, fail_parse, plain], fresh="spawn", api="generate_data"))
     out.append(seq([ver3, ver_none, ver3]))                                 # versions without a shared dict
-    out.append(seq([ver_none, fail_init, ver_none], shared_opts=True))      # finding: the failing run wrote the dict
-    out.append(seq([ver3, ver_none], shared_opts=True, api="generate_data"))  # finding
+    out.append(seq([ver_none, fail_init, ver_none], shared_opts=True))      # repaired d5304ed: a failing v3 run wrote the dict
+    out.append(seq([ver3, ver_none], shared_opts=True, api="generate_data"))  # repaired d5304ed
     out.append(seq([ver_none, ver_none], shared_opts=True))                 # shared dict, nothing written
-    out.append(seq([now, plain, now]))                                      # finding: stale clock
+    out.append(seq([ver_none, ver3, ver_none], shared_opts=3))              # the application itself asks for version 3
+    out.append(seq([now, plain, now]))                                      # repaired fc3a5e8: stale clock
     out.append(seq([today, today]))
     out.append(seq([Y["dataset_iterate_named"], Y["dataset_iterate_named"], Y["dataset_missing"], Y["dataset_iterate"]]))
     out.append(seq([Y["nick_var"], Y["uses_undefined_names"], Y["nick_var_other_meaning"], Y["uses_undefined_names"]]))
@@ -868,7 +869,7 @@ def _view(opts):
         v["uid"] = int(m.group(1)) if m else None
     except Exception:
         v["uid"] = None
-    for nm, fn in (("dates", "parse_date"), ("dts", "parse_datetimespec")):
+    for nm, fn in (("dates", "parse_date"), ("dts", "_parse_datetimespec")):
         try:
             ci = getattr(tf, fn).cache_info()
             v[nm] = [ci.currsize, ci.misses]
@@ -890,7 +891,11 @@ def run_many(payload):
     def on_alarm(signum, frame):
         raise _RunTimeout()
     signal.signal(signal.SIGALRM, on_alarm)
-    opts = dict(SHARED_OPTS) if payload["shared"] else None
+    opts = None
+    if payload["shared"]:
+        opts = dict(SHARED_OPTS)
+        if payload["shared"] == 3:
+            opts["snowfakery_version"] = 3      # the application itself asks for native types
     out = []
     w = Walker()
     prev_cv = _view(opts)["cv_id"]
@@ -1014,7 +1019,7 @@ def run_impl(case):
         csv_path = os.path.join(tmp, "data.csv")
         with open(csv_path, "w") as f:
             f.write(CSV_TEXT)
-        base = {"api": case.get("api", "generate"), "shared": bool(case.get("shared_opts")),
+        base = {"api": case.get("api", "generate"), "shared": case.get("shared_opts") or False,
                 "seed": case.get("seed", 1), "csv": csv_path}
         seq = launch(dict(base, specs=case["recipes"], audit=True))
         fresh = []
@@ -1232,7 +1237,7 @@ def coq_case(case, obs):
         vt = _view_term(sq["view"])
         if vt is None:
             return None         # private names the view reads are gone: nothing to compare
-        env = f"(mkEnv {i + 1} 0 {C.cbool(bool(case.get('shared_opts')))})"
+        env = f"(mkEnv {i + 1} 0 {'(Some 3)' if case.get('shared_opts') == 3 else 'None'})"
         opaque = spec["k"] != "prog"
         if opaque:
             ob = "[]"
@@ -1296,8 +1301,9 @@ def analyse(case, obs):
         rowcls = _row_classes(spec)
         tag = f"run {i + 1}/{len(seq)} ({spec.get('name') or spec['k']})"
         # a shared options dict that an earlier run wrote a version into
+        preset = 3 if case.get("shared_opts") == 3 else None
         tainted = bool(case.get("shared_opts") and spec["k"] == "prog" and not spec.get("version") and i > 0
-                       and seq[i - 1]["view"].get("app_ver") not in (None, 2))
+                       and seq[i - 1]["view"].get("app_ver") != preset)
         bucket_default = "leaks"
         if sq["err"] != fr["err"]:
             (res["opts"] if tainted else res["leaks"]).append(
@@ -1375,10 +1381,10 @@ def oracle(case, obs):
         return m if m.split(":")[0] in ("uid-repeat", "uid-context", "ids") else "leak: " + m
     if res["opts"]:
         return "shared-options: " + res["opts"][0]
-    if res["alpha"]:
-        return "alpha-repeat: " + res["alpha"][0]
     if res["stale"]:
         return "stale-clock: " + res["stale"][0]
+    if res["alpha"]:
+        return "alpha-repeat: " + res["alpha"][0]
     return None
 
 
@@ -1392,19 +1398,10 @@ def match_finding(case, obs, msg, findings):
         return None
     if res["leaks"]:
         return None                  # something else is wrong as well: never masked
-    if msg.startswith("shared-options") and F_OPTS in ids and case.get("shared_opts") and res["opts"]:
-        return F_OPTS
-    if msg.startswith("alpha-repeat") and F_ALPHA in ids and res["alpha"] and not res["opts"]:
+    # the two other classes (stale-clock: fc3a5e8, shared-options: d5304ed) are repaired defects:
+    # they are violations again if they come back
+    if msg.startswith("alpha-repeat") and F_ALPHA in ids and res["alpha"] and not res["opts"] and not res["stale"]:
         return F_ALPHA
-    if msg.startswith("stale-clock") and F_CLOCK in ids and res["stale"] and not res["opts"] and not res["alpha"]:
-        # an earlier run of the same process must have evaluated `datetime: now`
-        first = None
-        for i, spec in enumerate(case["recipes"]):
-            if "clock_now" in (prog_features(spec) if spec["k"] == "prog" else ()):
-                first = i
-                break
-        if first is not None and first < len(case["recipes"]) - 1:
-            return F_CLOCK
     return None
 
 
